@@ -88,6 +88,7 @@ type c20Step struct {
 }
 
 type c20Script struct {
+	task  int
 	input int // index into the run's shared inputs
 	steps []c20Step
 	// taint: this script makes the library write into the shared input (slice-path aliasing + in-place crypto)
@@ -107,7 +108,7 @@ func hashOf(b []byte) []byte {
 
 // c20Exec runs one step of a script on the task's private state. It must touch nothing but the
 // task's own objects and (read-only) the shared inputs.
-func c20Exec(tk *c20Task, sc *c20Script, st c20Step, shared [][]byte, annexb [][]byte) {
+func c20Exec(tk *c20Task, sc *c20Script, st c20Step, shared [][]byte, annexb [][]byte, keymat []byte) {
 	var out []byte
 	defer func() {
 		if rec := recover(); rec != nil {
@@ -187,8 +188,12 @@ func c20Exec(tk *c20Task, sc *c20Script, st c20Step, shared [][]byte, annexb [][
 		if tk.f == nil || tk.f.Init == nil {
 			return
 		}
-		key := []byte("0123456789abcdef")
-		iv := []byte("fedcba9876543210")[:8+8*(st.arg%2)]
+		// key and IV are sub-slices of a key-material blob shared (read-only) by all tasks: every task has its
+		// own key; the IV is 8 or 16 bytes and is followed in memory by other tasks' material
+		ko := 64 + 16*(sc.task%8)
+		key := keymat[ko : ko+16]
+		io := 8 * (st.arg % 4)
+		iv := keymat[io : io+8+8*(st.arg%2)]
 		kid, _ := mp4.NewUUIDFromString("00112233445566778899aabbccddeeff")
 		scheme := []string{"cenc", "cbcs"}[st.arg/2%2]
 		ipd, err := mp4.InitProtect(tk.f.Init, key, iv, scheme, kid, nil)
@@ -358,6 +363,9 @@ func c20Run(r *sim.Run) {
 		shared[i] = append([]byte(nil), in.master...)
 		c20RunKeys[i] = in.encKey
 	}
+	keyMaster := make([]byte, 64+16*8)
+	t.Sub().Fill(keyMaster)
+	keymat := append([]byte(nil), keyMaster...)
 	annexb := make([][]byte, len(c20AnnexB))
 	for i := range annexb {
 		annexb[i] = append([]byte(nil), c20AnnexB[i]...)
@@ -367,6 +375,7 @@ func c20Run(r *sim.Run) {
 	tainted := make([]bool, nIn)
 	for i := range scripts {
 		scripts[i] = c20DrawScript(t, nIn, ins)
+		scripts[i].task = i
 		if scripts[i].writesInput {
 			tainted[scripts[i].input] = true
 		}
@@ -390,7 +399,7 @@ func c20Run(r *sim.Run) {
 		sc := &scripts[i]
 		for _, st := range sc.steps {
 			st := st
-			steps[i] = append(steps[i], func() { c20Exec(tk, sc, st, shared, annexb) })
+			steps[i] = append(steps[i], func() { c20Exec(tk, sc, st, shared, annexb, keymat) })
 		}
 	}
 	free := t.Chance(150)
@@ -416,7 +425,11 @@ func c20Run(r *sim.Run) {
 		r.Event("free-running", procs)
 		r.Probe("mode-B-free-running")
 	} else {
-		s := sim.Sched{Isolate: sim.RaceEnabled}
+		// emptying all sync.Pools before every step is slow (two GCs): done in a seeded third of the runs
+		s := sim.Sched{Isolate: sim.RaceEnabled && t.Chance(300)}
+		if s.Isolate {
+			r.Probe("pools-isolated")
+		}
 		order := s.RunTasks(steps, func(runnable []int) int { return t.Draw(len(runnable)) })
 		r.Logf("schedule: %v", order)
 		for _, o := range order {
@@ -456,6 +469,10 @@ func c20Run(r *sim.Run) {
 			r.Violate(cls, "shared read-only input %d (%s) was modified (first changed byte %d); writer: %s", i, ins[i].name, firstDiff(shared[i], ins[i].master), who)
 		}
 	}
+	if !bytes.Equal(keymat, keyMaster) {
+		r.Violate("c20-input-mutated:key-material", "the shared read-only key/IV material was modified (first changed byte %d)", firstDiff(keymat, keyMaster))
+		copy(keymat, keyMaster)
+	}
 	// ---- oracle (iv): package-level state
 	rd1, sr1, sge1 := mp4.VsimDecoderKeys()
 	if fp1 := fmt.Sprint(rd1, sr1, sge1, len(mp4.PrftFlagsInterpretation), len(mp4.CustomChannelMapLocations)); fp1 != fp0 {
@@ -469,7 +486,7 @@ func c20Run(r *sim.Run) {
 		solo := &c20Task{}
 		sc := &scripts[ti]
 		for _, st := range sc.steps {
-			c20Exec(solo, sc, st, shared, annexb)
+			c20Exec(solo, sc, st, shared, annexb, keymat)
 		}
 		// a solo run may itself write into the shared input (the recorded aliasing finding): restore
 		copy(shared[sc.input], ins[sc.input].master)
@@ -507,9 +524,9 @@ func init() {
 			"Mode A (85%): built with -race, tasks are real goroutines serialised by a race-invisible baton in an order drawn from the tape at every step boundary; mode B (15%): the same scripts free-running behind a barrier at GOMAXPROCS 1/4/16. Oracles: no race report with an mp4ff frame, each task's per-step results equal the same script run alone, SHA of every shared input unchanged, registry/table fingerprint unchanged. " +
 			"non-trivial = at least two task switches in the drawn schedule; distinct = hash of the schedule (task id per step) and scripts.",
 		Assumptions: []string{"the box-decoder registry is not modified (excluded by the statement)", "in-place conversions (ConvertByteStreamToNaluSample etc.) are given private copies: they are documented as in place",
-			"slice-path decoding aliases the caller's buffer; scripts that then encrypt/decrypt in place are generated in a minority of runs and their effect on the shared input is the recorded finding", "race detector (ThreadSanitizer) with suppress_equal_stacks=0; it is a sound but not complete sensor: runtime-internal synchronisation (sync.Pool in fmt, atomics) can order two tasks and hide a race, so all pools are emptied (two GCs) before every step and replay/minimisation re-execute a tape up to 6 times"},
+			"slice-path decoding aliases the caller's buffer; scripts that then encrypt/decrypt in place are generated in a minority of runs and their effect on the shared input is the recorded finding", "race detector (ThreadSanitizer) with suppress_equal_stacks=0; it is a sound but not complete sensor: runtime-internal synchronisation (sync.Pool in fmt, atomics) can order two tasks and hide a race, so in a seeded third of the runs all pools are emptied (two GCs) before every step, the detector runs with history_size=7 (with the default history the previous access of a long-running task cannot be restored and the report is silently dropped), and replay/minimisation re-execute a tape up to 6 times"},
 		Real: realLib, Stub: []string{"caller scheduling (baton scheduler, tape-drawn)", "virtual time: none (library reads no clock)"}, RealNoFault: append([]string{"Go race detector runtime"}, realNoFault...),
-		Runs:        map[string]int{"quick": 800, "thorough": 120000},
+		Runs:        map[string]int{"quick": 1200, "thorough": 200000},
 		HangBudget:  120e9,
 		Setup:       c20Setup,
 		Run:         c20Run,
